@@ -134,7 +134,7 @@ def main(ctx):
     if ctx.replay:
         return replay(ctx)
     agree = 0
-    for k in range(n):
+    for k in ctx.loop(n):
         d, steps, regmap, memmap, dflt = gen_case(ctx, k)
         iter_seed = None if k % 4 == 0 else ctx.rng.randrange(1 << 30)
         desc = d.describe()
